@@ -218,6 +218,7 @@ func famPipeline(dir string, seed int64, tier string) {
 		func() (any, any) { return 1, nil },
 		func() (any, any, any) { return "a", nil, nil },
 		[]any{func() (any, any) { return 2, nil }, nil, 3},
+		UniFields{Größe: 3, Δt: 1.5, Ω: "o", Ärger: []int{1}, A1_b: true},
 	}
 	// values nested deeper than any fixed frame stack an iterator might preallocate (33, 65, 129 levels ...),
 	// with a sibling next to every nested value so that a repeated or dropped subtree shows
@@ -235,7 +236,7 @@ func famPipeline(dir string, seed int64, tier string) {
 		}
 		directed = append(directed, v)
 	}
-	nShallow := 9
+	nShallow := 10
 	for di, v := range directed {
 		ts, err := marshalTokens(v, nil)
 		if err != nil {
